@@ -137,6 +137,15 @@ def build_inputs(c):
     ef = c.get("eps_form", "float")
     eps = c["eps"]
     eps = int(eps) if ef == "int" else float(eps) if ef == "float" else getattr(np, ef.split(".", 1)[1])(eps)
+    inv = c.get("invalid")
+    if inv == "nan_data":
+        series[0][len(series[0]) // 2, 0] = np.nan
+    elif inv == "beta_wrong_length":
+        beta = np.ones(5)
+    elif inv == "lambda_wrong_shape":
+        lam = np.ones((nw + 1, nw + 1))
+    elif inv == "mismatched_columns" and len(series) > 1:
+        series[-1] = series[-1][:, :max(1, c["N"] - 1)] if c["N"] > 1 else np.hstack([series[-1], series[-1]])
     hyper = dict(window_size=W, num_clusters=c["K"], sparsity_weight=lam, label_switching_cost=beta,
                  iteration_limit=c["limit"], min_meaningful_covariance=eps, num_processors=c["P"],
                  min_cluster_size=c["m"], biased_covariance=c["biased"])
@@ -208,7 +217,7 @@ def traced_run(c, fault_plan=None, keep_model=False):
            "P": c["P"], "mp": bool(c["mp"]), "lamDig": proj.val_dig(hyper["sparsity_weight"]),
            "betaDig": proj.val_dig(hyper["label_switching_cost"]), "betaForm": c.get("beta_form", "float"),
            "lamForm": c.get("lam_form", "float"), "scale": c["scale"], "cfg": c}
-    hdr["fault"] = ({"kind": "wrong_front_end"} if c.get("swap") else
+    hdr["fault"] = ({"kind": "wrong_front_end"} if c.get("swap") else {"kind": "invalid_argument"} if c.get("invalid") else
                     dict(fault_plan) if fault_plan else {"kind": c.get("expect", "none")})
     hdr["timeLimitMs"] = int(c.get("time_limit_ms", 120000))
     tracedir = common.scratch("run-")
